@@ -349,7 +349,7 @@ Section WalkEqLeaf.
   Lemma walk_DImage alt ctype src nn nc ni :
     walk o cm (DImage alt ctype src) nn nc ni =
     match conv_attrs (o_conv o) (ni + 1) alt ctype src with
-    | inl m => mkTr [] [] [] [m] 1 []
+    | inl m => mkTr [] [] [] [m] (if counts_failed_calls (o_conv o) then 1 else 0) []
     | inr a => mkTr [] [] [] [] 1
                  [Elem (plain_tag [105;109;103] (attrs_update (if truthy alt then [(k_alt, fmt_opt alt)] else []) a)) []]
     end.
@@ -407,7 +407,7 @@ Qed.
 
 Lemma conv_attrs_plain c k alt ct src a : conv_attrs c k alt ct src = inr a -> keys_plain a = true.
 Proof.
-  unfold conv_attrs. destruct c as [|with_alt|]; [destruct src| destruct src |]; intros H; try discriminate;
+  unfold conv_attrs. destruct c as [|with_alt| |]; [destruct src| destruct src | | destruct src]; intros H; try discriminate;
     injection H as H; subst a; try reflexivity.
   destruct with_alt; reflexivity.
 Qed.
@@ -832,8 +832,9 @@ Section Main.
       rewrite visit_DImage in H. rewrite walk_DImage. unfold visit_image in H. cbv zeta in H.
       destruct (conv_attrs (o_conv o) (st_imgs st + 1) a c s) as [m|at_] eqn:Hca.
       + injection H as H1 H2. subst ns st'. split; [apply nodes_ok_nil|].
-        unfold state_ok, add_msg. cbn [st_notes st_comments st_msgs st_imgs t_refs t_crefs t_msgs t_imgs].
-        rewrite !app_nil_r. repeat split; reflexivity.
+        destruct (counts_failed_calls (o_conv o));
+          unfold state_ok, add_msg; cbn [st_notes st_comments st_msgs st_imgs t_refs t_crefs t_msgs t_imgs];
+          rewrite ?app_nil_r, ?N.add_0_r; repeat split; reflexivity.
       + injection H as H1 H2. subst ns st'. split.
         * cbn [t_text t_imgnodes]. split; [reflexivity|]. split; [intros _; reflexivity|].
           unfold forest_tags. cbn [flat_map node_tags app]. constructor; [|constructor].
